@@ -396,9 +396,17 @@ def c19(a):
     extra = ["Sun, 06 Nov 1994 08:49:37 GMT", "sun, 06 nov 1994 08:49:37 gmt", "Sunday, 06-Nov-94 08:49:37 GMT", "Sun Nov  6 08:49:37 1994",
              "~", "a~b", "tok", '"q\\"x"', '"', "(c(n)t)", "(", "%41", "%4g", "UTF-8'en'%E2%82%AC", "ISO-8859-1''x", "utf-8''a", "a1", "1", " ", "\t ", "",
              "Jan", "jan", "JAN", "Mon", "mon"]
+    def lookalikes(t):
+        out = set()
+        for a, b in (("s", "\u017f"), ("S", "\u017f"), ("k", "\u212a"), ("K", "\u212a"), ("i", "\u0131"), ("I", "\u0130"), ("ss", "\u00df")):
+            if a in t:
+                out.add(t.replace(a, b, 1))
+        return out
+
     probes = []
     for m1, r1, m2, r2 in pairs:
-        ss = sorted(byrule.get((m1, r1.lower()), set()) | byrule.get((m2, r2.lower()), set()) | set(extra))
+        base = byrule.get((m1, r1.lower()), set()) | byrule.get((m2, r2.lower()), set()) | set(extra)
+        ss = sorted(base | {v for t in base for v in lookalikes(t)})
         for s in ss:
             probes.append([m1, "Rule", r1, s, 0, 2])
             probes.append([m2, "Rule", r2, s, 0, 2])
